@@ -512,7 +512,7 @@ def check_scan(ctx, rep):
 
 
 def run(ctx, rep):
-    rep.level = 'proof'
+    rep.level = 'other'   # proof-grade engines, but one clause of the property is a known finding (F46): not a proof of the property as stated
     rep.trusted_base = ['extended Cauchy determinant identity (Roth, Introduction to Coding Theory) for minors of order > 3 (quick) / > 3 (thorough: order 3 also exhaustive)',
                         'clang-14 lowering to LLVM IR', 'E2 semantics table (sa/kernels.py)', 'field model sa/gf.py', 'numpy']
     rep.assumptions = ['size % 64 == 0 and sorted, in-range failure indices (asserted by raid_rec/raid_data; the abstract run reports a reached assertion)',
